@@ -40,11 +40,11 @@ func setBPMPersistentFlag(cmd *cobra.Command) {
 }
 
 func getBPM(cmd *cobra.Command) (op.BPM, error) {
-	if !cmd.Flags().Changed("bpm") {
+	v, _ := cmd.Flags().GetUint("bpm")
+	if v == 0 {
 		var d op.BPM
 		return d, errorx.ErrOK
 	}
-	v, _ := cmd.Flags().GetUint("bpm")
 	return op.NewBPM(v)
 }
 
